@@ -190,6 +190,7 @@ class ProcessSnapshot(Stream):
         rng = random.Random(13)
         out = []
         base = PG.gen_spec(rng, behaviours=False, allow_pyproject=False)
+        base.pop("latin1", None)
         base.update(style="kwargs", version_from="literal", reqs_from="literal", here="abspath-dirname", setup_import="from-setuptools")
         for ex in [None, {"stmt": "sys.exit(0)", "when": "after-setup"}, {"stmt": "raise RuntimeError('boom')", "when": "after-setup"},
                    {"stmt": "class _Stop(BaseException):\n    pass\nraise _Stop()", "when": "before-setup"}]:
@@ -371,7 +372,12 @@ class ProcessSnapshot(Stream):
                 del d["sys.path"]
         for k in ("cwd", "meta_path", "path_hooks", "sys.path", "argv", "modules_left", "modules_lost"):
             if k in d:
-                fails.append(("C13/not-restored/" + k, {k: d[k]}))
+                sig = "C13/not-restored/" + k
+                beh = spec.get("prelude", []) + spec.get("postlude", [])
+                if k == "modules_left" and "repatch-getcwd" in beh and ({"load-rel", "load-rel-then-leave"} & set(beh)):
+                    # D48: the clean-up recognises project modules through os.path.abspath, i.e. through the *script's* os.getcwd
+                    sig += "/script-replaced-getcwd"
+                fails.append((sig, {k: d[k]}))
         if r.get("project_changed"):
             region = "unpatched-fs-call" if (set(spec.get("prelude", []) + spec.get("postlude", [])) & UNPATCHED_FS and case["cwd"] == "project") else "other"
             fails.append(("C13/project-modified/" + region, r.get("project_delta")))
